@@ -242,6 +242,7 @@ func runC12(p *Prog, r *Report, tier string) {
 		"Idempotence and 'unpause restores' follow from constant-write-to-own-slot."
 	r.Assumptions = []string{"go/ssa faithfully represents the module code", "getter contract: found=false implies the zero value (checked)", "pauser authorisation is C10"}
 	r.Trusted = r.Assumptions
+	ctxDiscipline(p, r, allTxRoots(p))
 
 	flagGetterContract(p, r, flagBM)
 	flagGetterContract(p, r, flagSR)
